@@ -3,6 +3,7 @@ package main
 // C07 Optimized coding sequences translate back to the requested protein.
 
 import (
+	"go/token"
 	"fmt"
 	"strings"
 
@@ -49,6 +50,7 @@ func ruleC07(c *Ctx) {
 	c.useFn(opt)
 	c.useFn(ch)
 	checkChooser(c, ch)
+	loopsRunToTheEnd(c, "TERM-CHOOSER", ch)
 	checkOptimize(c, opt)
 	checkProteinAlphabet(c)
 	// the other half of the round trip: Translate(Optimize(p)) == p needs Translate to be the table applied codon by codon (shared with C06)
@@ -562,4 +564,183 @@ func checkProteinAlphabet(c *Ctx) {
 		return
 	}
 	c.check(len(badL) == 0 && len(lacking) == 0, "TABLE-ALPHABET", "random protein alphabet within the 20 encodable amino acids", ps.Pos(), fmt.Sprintf("alphabet %q, fixed letters %q", alpha, string(fixed)), fmt.Sprintf("alphabet %q: letters no table can encode %v; %v", alpha, badL, lacking))
+}
+
+
+// loopsRunToTheEnd: in the function that builds one entry per element of a list (a chooser per amino acid, a
+// choice per codon), a range loop is left from its body for a reason other than an error return, while the
+// function goes on to hand its result back: the elements after that point get no entry. Only exits whose
+// condition does not come from a search result (a found-flag, an index looked for) are evidence.
+func loopsRunToTheEnd(c *Ctx, rule string, f *ssa.Function) {
+	tb := newTB(f)
+	for _, hdr := range f.Blocks {
+		if !strings.HasPrefix(hdr.Comment, "rangeindex.loop") && !strings.HasPrefix(hdr.Comment, "rangeiter.loop") {
+			continue
+		}
+		L := naturalLoopOf(hdr)
+		// the loop builds something: a map update, an append or an element store in its body
+		builds := false
+		for b := range L {
+			for _, in := range b.Instrs {
+				switch x := in.(type) {
+				case *ssa.MapUpdate:
+					builds = true
+				case *ssa.Call:
+					if calleeName(x) == "builtin:append" {
+						builds = true
+					}
+				}
+			}
+		}
+		if !builds {
+			continue
+		}
+		// a list the function has put in order first (a copy sorted by descending weight): leaving the loop at
+		// the first element that fails is what the order is for
+		if loopOverSorted(f, hdr, L) {
+			continue
+		}
+		var entry *ssa.BasicBlock
+		for _, sx := range hdr.Succs {
+			if L[sx] && sx != hdr {
+				entry = sx
+			}
+		}
+		if entry == nil {
+			continue
+		}
+		for b := range L {
+			if b == hdr || enclosingLoopHeader(b) != hdr {
+				continue
+			}
+			for _, sx := range b.Succs {
+				if L[sx] {
+					continue
+				}
+				// where does this exit lead: straight to an error return, or on with the function?
+				errorOnly := true
+				for _, r := range returnsOf(f) {
+					if !(sx == r.Block() || reaches(sx, r.Block())) {
+						continue
+					}
+					isErr := false
+					for _, res := range r.Results {
+						if tname(res.Type()) == "error" {
+							if k, isC := res.(*ssa.Const); !isC || !k.IsNil() {
+								isErr = true
+							}
+						}
+					}
+					if !isErr {
+						errorOnly = false
+					}
+				}
+				if errorOnly || !entry.Dominates(b) {
+					continue
+				}
+				guards := pathCond(tb, entry, b).atoms()
+				if ifi, ok := b.Instrs[len(b.Instrs)-1].(*ssa.If); ok {
+					guards = append(guards, condOfBool(tb, ifi.Cond, 0).atoms()...)
+				}
+				if len(guards) == 0 {
+					continue
+				}
+				searching := false
+				for _, a := range guards {
+					if a.Atom.contains(func(x *Term) bool {
+						return x.Op == "call" && (strings.Contains(x.Name, "Index") || strings.Contains(x.Name, "Contains") || strings.Contains(x.Name, "HasPrefix") || strings.Contains(x.Name, "Equal"))
+					}) {
+						searching = true
+					}
+				}
+				if searching {
+					continue
+				}
+				at := hdr.Instrs[0].Pos()
+				if ifi, ok := b.Instrs[len(b.Instrs)-1].(*ssa.If); ok && ifi.Cond.Pos() != token.NoPos {
+					at = ifi.Cond.Pos()
+				}
+				c.bad(rule, "the loop over "+short(loopSubject(tb, hdr))+" runs to the end of its list", at, "the loop at "+c.W.pos(hdr.Instrs[0].Pos())+" that builds one entry per element is left from its body under "+short(pathCondString(guards))+" and the function still returns its result: the elements after that one get no entry at all")
+				return
+			}
+		}
+	}
+}
+
+// loopSubject: what a range loop ranges over, for messages.
+func loopSubject(tb *TermBuilder, hdr *ssa.BasicBlock) string {
+	for _, in := range hdr.Instrs {
+		if ph, ok := in.(*ssa.Phi); ok {
+			_ = ph
+		}
+	}
+	for _, p := range hdr.Preds {
+		if hdr.Dominates(p) {
+			continue
+		}
+		for _, in := range p.Instrs {
+			if cl, ok := in.(*ssa.Call); ok && calleeName(cl) == "builtin:len" && len(cl.Call.Args) == 1 {
+				return tb.T(cl.Call.Args[0]).String()
+			}
+		}
+	}
+	return "its list"
+}
+
+
+// loopOverSorted: the list a range loop walks was handed to a sort function earlier in f.
+func loopOverSorted(f *ssa.Function, hdr *ssa.BasicBlock, L map[*ssa.BasicBlock]bool) bool {
+	root := func(v ssa.Value) ssa.Value {
+		for d := 0; d < 10; d++ {
+			switch x := v.(type) {
+			case *ssa.Slice:
+				v = x.X
+			case *ssa.MakeInterface:
+				v = x.X
+			case *ssa.ChangeType:
+				v = x.X
+			case *ssa.Convert:
+				v = x.X
+			case *ssa.UnOp:
+				if x.Op.String() == "*" {
+					if a, ok := x.X.(*ssa.Alloc); ok {
+						return a
+					}
+				}
+				return v
+			default:
+				return v
+			}
+		}
+		return v
+	}
+	// the ranged list: the base of an element access by the loop's index, or the operand of len in the pre-header
+	var ranged []ssa.Value
+	for _, p := range hdr.Preds {
+		if hdr.Dominates(p) {
+			continue
+		}
+		for _, in := range p.Instrs {
+			if cl, ok := in.(*ssa.Call); ok && calleeName(cl) == "builtin:len" && len(cl.Call.Args) == 1 {
+				ranged = append(ranged, root(cl.Call.Args[0]))
+			}
+		}
+	}
+	if len(ranged) == 0 {
+		return false
+	}
+	sorted := false
+	eachInstr(f, func(i ssa.Instruction) {
+		cl, ok := i.(*ssa.Call)
+		if !ok || !sortFuncs[calleeName(cl)] || len(cl.Call.Args) == 0 || L[cl.Block()] {
+			return
+		}
+		r0 := root(cl.Call.Args[0])
+		for _, r := range ranged {
+			if r == r0 {
+				sorted = true
+			}
+		}
+	})
+	return sorted
 }
